@@ -267,7 +267,8 @@ type vhost struct {
 	mu      sync.Mutex
 	fail    int // 0 dial normally, 1 connection refused (api.ConnectFailed), 2 dial times out (api.ConnectTimeout)
 	evs     []*evRec
-	lastWindow *windowConn
+	lastWindow *hookConn
+	closeHook  func(conn types.ClientConnection)
 	window  bool // the next connection's Connect() returns only after the upstream's immediate close has reached mosn
 	created []types.ClientConnection
 }
@@ -286,9 +287,26 @@ func (e *evRec) OnEvent(ev api.ConnectionEvent) {
 // windowConn holds Connect() open until the close of the freshly dialled connection (the scripted upstream closes it on
 // accept) has been noticed by the connection's read goroutine, i.e. the close event is delivered (or is waiting for the
 // pool's lock) BEFORE the pool's connect path goes on to store / count the client.
-type windowConn struct {
+// hookConn wraps every connection the pool gets from the host:
+//   - window: Connect() returns only after the upstream's close-on-accept has reached mosn (see armWindow)
+//   - Close(): if a close hook is armed it runs at the instant the pool calls Close(), before the connection closes
+//     (used to fire a concurrent NewStream exactly between "the pool decided to close" and "the close event")
+type hookConn struct {
 	types.ClientConnection
+	h          *vhost
 	head, tail *evRec
+	window     bool
+}
+
+func (c *hookConn) Close(t api.ConnectionCloseType, ev api.ConnectionEvent) error {
+	c.h.mu.Lock()
+	f := c.h.closeHook
+	c.h.closeHook = nil
+	c.h.mu.Unlock()
+	if f != nil {
+		f(c.ClientConnection)
+	}
+	return c.ClientConnection.Close(t, ev)
 }
 
 func (e *evRec) sawClose() bool {
@@ -302,7 +320,10 @@ func (e *evRec) sawClose() bool {
 	return false
 }
 
-func (c *windowConn) Connect() error {
+func (c *hookConn) Connect() error {
+	if !c.window {
+		return c.ClientConnection.Connect()
+	}
 	// the pool has registered its listeners by now: a listener added here runs after them
 	c.ClientConnection.AddConnectionEventListener(c.tail)
 	err := c.ClientConnection.Connect()
@@ -357,12 +378,12 @@ func (h *vhost) CreateConnection(ctx context.Context) types.CreateConnectionData
 	h.evs = append(h.evs, rec)
 	h.created = append(h.created, d.Connection)
 	d.Host = h
+	wc := &hookConn{ClientConnection: d.Connection, h: h, head: rec, tail: &evRec{}, window: h.window}
 	if h.window {
 		h.window = false
-		wc := &windowConn{ClientConnection: d.Connection, head: rec, tail: &evRec{}}
 		h.lastWindow = wc
-		d.Connection = wc
 	}
+	d.Connection = wc
 	return d
 }
 
@@ -453,6 +474,9 @@ type world struct {
 	leases   []*lease
 	ext      int
 	failedDials int
+	noModel     bool
+	raced       int
+	raceFinding string
 	lastCoq  []string // model operations the last harness op stands for (nil: the op's own)
 	timeouts []string // waits that expired (reported; a hang is visible as a mismatch or a finder failure)
 }
